@@ -42,7 +42,7 @@ pub open spec fn frp_ok(parts: Parts, body: Bytes, options: SignatureOptions, cr
     &&& cr.wf()
     &&& cr.path_bytes() == canon_path(parts.uri.path, options.s3)->Some_0
     &&& cr.hview() == map_of(header_pairs(parts.headers.entries))
-    &&& cr.method_bytes() == str_bytes(parts.method.name)
+    &&& cr.method_bytes() == str_bytes(parts.method.name())
     &&& if !folds(parts, options) {
             &&& cr.qview() == map_of(parse_query(url_query(parts))->Some_0)
             &&& cr.body_hash_bytes() == str_bytes(spec_hex(spec_sha256(body.data)))
